@@ -104,16 +104,16 @@ type copyCase struct {
 	wo       oracle.WalkOpts
 	force    bool
 	// snapshot of the target before the copy
-	preMan  map[string]bool
-	preBlob map[string]bool
-	preTags map[string]string
-	ext     *extHost
+	preMan      map[string]bool
+	preBlob     map[string]bool
+	preTags     map[string]string
+	ext         *extHost
 	defaultOpts bool
 	includeExt  bool
 	disk        *simos.Disk
 	// observation of target writes (set up by watch)
-	writes      []wev
-	onManifest  func(seq int, dig string, raw []byte)
+	writes     []wev
+	onManifest func(seq int, dig string, raw []byte)
 }
 
 // extHost serves external layer URLs.
